@@ -54,7 +54,9 @@ def co_coarsen(case, ctx):
         args = ["coarsen", src, "-k", str(case["k"]), "-c", str(case["chunk"]), "-p", str(case["nproc"]), "-o", uri]
         if cols != ["count"] or agg:
             for c, f in zip(cols, case["aggs"]):
-                args += ["--field", f"{c}:agg={f}"]
+                # dtype and aggregate in one field specifier, in either order
+                spec = {0: f"{c}:agg={f}", 1: f"{c}:dtype=int64,agg={f}", 2: f"{c}:agg={f},dtype=int64"}[case.get("fieldstyle", 0)]
+                args += ["--field", spec]
         res = CliRunner().invoke(cli, args)
         if res.exit_code != 0:
             raise res.exception if isinstance(res.exception, Exception) else RuntimeError(res.output[-200:])
